@@ -142,6 +142,17 @@ def close_race(ctx):
         _report(ctx, s, "close_race", args)
 
 
+def flush_race(ctx):
+    """directed: a commit parked at each yield point of the pipeline while its memtable is rotated away and flushed by
+    someone else (flush all / rotate + flush one / rotate only); after a process crash both acknowledged commits must be
+    there"""
+    s = core.run_driver("flush_race", [], timeout=600)
+    if s["cases"] == 0:
+        raise core.ToolError("flush_race ran no case")
+    ctx.add_driver(s)
+    _report(ctx, s, "flush_race", [])
+
+
 def visibility_stress(ctx, runs):
     """hook-free: committers with tiny memtables (constant rotation / flush / compaction) and readers that begin right
     after an acknowledgement and must see it, whole and stable"""
@@ -162,6 +173,10 @@ def replay(ctx, rp):
     if rp.get("driver") == "visibility_stress":
         s = core.run_driver("visibility_stress", rp.get("args", []))
         _report(ctx, s, "visibility_stress", rp.get("args", []))
+        return
+    if rp.get("driver") == "flush_race":
+        s = core.run_driver("flush_race", [])
+        _report(ctx, s, "flush_race", [])
         return
     if rp.get("driver") == "close_race":
         s = core.run_driver("close_race", rp.get("args", []))
